@@ -533,7 +533,13 @@ def run_spec(spec: dict, seed: int, replay_actions: list[int] | None = None, max
             try:
                 if resume_from is not None:
                     ctx = Context.from_dict(wf, json.loads(json.dumps(resume_from)))
-                    handler = wf.run(ctx=ctx)
+                    if ctx.is_running:
+                        handler = wf.run(ctx=ctx)
+                    else:
+                        # the snapshot was taken after the run had ended: run() starts a NEW run on the restored context
+                        # (a start event is sent; whatever the ended run left queued / in progress is picked up again)
+                        run.trace.start_event = ET.T0(uid=2, k=spec.get("start_k"))
+                        handler = wf.run(ctx=ctx, start_event=run.trace.start_event)
                 else:
                     run.trace.start_event = ET.T0(uid=1, k=spec.get("start_k"))
                     handler = wf.run(start_event=run.trace.start_event)
